@@ -293,7 +293,7 @@ def check(run: Run, prog: Program, model: Model, tier: str) -> None:
             run.violated("DRAW-ORDER", construct, site, detail, witness)
         else:
             run.undecided("DRAW-ORDER", construct, site, detail)
-    run.floor("MIRROR", 25)
+    run.floor("MIRROR", 15)
     run.floor("DRAW-ORDER", 8)
     run.floor("KIND-AGREE", 20)
     _round_dir(run, prog, model)
@@ -492,8 +492,22 @@ def _judge_draw(prog: Program, hook: str, label: str, e: Event, lo: V, hi: V, fa
     record(construct, "UNDECIDED", site, f"cannot entail {lo.key()[:50]} <= {hi.key()[:50]}")
 
 
+def _contains_rounding(v: Any) -> Optional[str]:
+    if isinstance(v, Term):
+        if v.op == "call" and isinstance(v.args[0], str) and v.args[0] in ROUND:
+            return v.args[0]
+        for a in v.args:
+            r = _contains_rounding(a)
+            if r:
+                return r
+    return None
+
+
 def _direction(v: V) -> str:
     if isinstance(v, Term) and v.op == "call" and isinstance(v.args[0], str) and v.args[0] in ROUND:
+        inner = next((r for a in v.args[1:] for r in [_contains_rounding(a)] if r), None)
+        if inner is not None and ROUND[inner] != ROUND[v.args[0]]:
+            return f"{ROUND[inner]} (by the inner {inner.split('.')[-1]}(), then {ROUND[v.args[0]]})"
         return ROUND[v.args[0]]
     if isinstance(v, Term) and v.op == "bin" and v.args[0] == "//":
         return "down"
@@ -571,4 +585,9 @@ MUTANTS += [
      "edits": [(G, "            return generated[0:offset] + substr + generated[offset:]", "            return generated[0:offset] + substr + generated[offset + 1:]")]},
     {"name": "neutral: slices written as [:offset]", "expect": "SILENT",
      "edits": [(G, "            return generated[0:offset] + substr + generated[offset:]", "            return generated[:offset] + substr + generated[offset:]")]},
+]
+
+MUTANTS += [
+    {"name": "scaled grid bounds rounded to 6 decimals before ceil/floor", "rule": "ROUND-DIR",
+     "edits": [(R, "        left_number = ceil(start * scale_factor)\n        right_number = floor(end * scale_factor)", "        left_number = ceil(round(start * scale_factor, 6))\n        right_number = floor(round(end * scale_factor, 6))")]},
 ]
